@@ -139,7 +139,7 @@ def pmap(f, items, workers=None):
 
 def parse_dfa(v):
     """parsed (dfa (start s) (trans ..) (acc ..) (inputs ..) (subdfas ..)) -> dict"""
-    d = dict(start=int(v[1][1]), trans=[], inputs=[], subs=[])
+    d = dict(start=int(v[1][1]), trans=[], inputs=[], subs=[], acc=[int(x) for x in v[3][1:]])
     for row in v[2][1:]:
         for it in row[1:]:
             d['trans'].append((int(row[0]), int(it[0]), int(it[1])))
@@ -166,15 +166,16 @@ def expected_body(cmd, shell):
     return cmd
 
 
-def canon_expected(d, subs, shell, with_descr):
-    """(start, relation {(s, label, to)}, candidates {(level, s, label)}) of an automaton of the MIN dump"""
+def canon_expected(d, subs, shell, with_descr, is_sub=False):
+    """(start, relation {(s, label, to)}, candidates {(level, s, label)}[, accepting states]) of an automaton of
+    the MIN dump; bash embeds the accepting states of within-word automata (df274e8)"""
     rel, comp = set(), set()
     for s, i, to in d['trans']:
         x = d['inputs'][i]
         if x[0] == 'lit':
             lab, lvl = (('lit', x[1], x[2]) if with_descr else ('lit', x[1])), x[3]
         elif x[0] == 'sub':
-            lab, lvl = ('sub', canon_expected(subs[x[1]], [], shell, with_descr)), x[2]
+            lab, lvl = ('sub', canon_expected(subs[x[1]], [], shell, with_descr, is_sub=True)), x[2]
         elif x[0] in ('cmd', 'compadd'):
             lab, lvl = (x[0], expected_body(x[1], shell)), x[2]
         else:
@@ -182,6 +183,8 @@ def canon_expected(d, subs, shell, with_descr):
         rel.add((s, lab, to))
         if lvl is not None:
             comp.add((lvl, s, lab))
+    if is_sub and shell == 'bash':
+        return (d['start'], frozenset(rel), frozenset(comp), frozenset(d['acc']))
     return (d['start'], frozenset(rel), frozenset(comp))
 
 
@@ -233,7 +236,7 @@ def tables_of_function(shell, body, is_sub):
     """the data statements of one function -> dict of raw tables (numbers as written)"""
     pre = 'subword_' if (is_sub and shell in ('zsh', 'fish')) else ''
     T = dict(lits=None, descr={}, mlit=[], mcmd=[], mcompadd=[], mstar=None, msub=[], clit={}, ccmd={}, ccompadd={}, csub={},
-             maxlevel=None, state=None, call=None, has_cmd=False, has_compadd=False, has_sub=False)
+             maxlevel=None, state=None, call=None, has_cmd=False, has_compadd=False, has_sub=False, accepting=None)
 
     def base(v):
         v = str(v)
@@ -271,6 +274,8 @@ def tables_of_function(shell, body, is_sub):
                 elif v == 'subword_transitions':
                     T['has_sub'] = True
                 if k == 'assoc':
+                    if v == 'accepting_states':
+                        T['accepting'] = [int(s_) for s_, _ in st[2]]
                     if v == 'star_transitions':
                         T['mstar'] = [(int(s), int(t[0])) for s, t in st[2]]
                     for name, tgt in (('literal_transitions_level_', 'clit'), ('commands_level_', 'ccmd'),
@@ -394,7 +399,7 @@ def embedded(shell, stmts, command, with_descr):
         if S['call'] != '_%s_subword' % command:
             raise ReadError('%s does not call the matcher' % W['call'])
         S = dict(S)
-        S['lits'], S['descr'] = W['lits'], W['descr']
+        S['lits'], S['descr'], S['accepting'] = W['lits'], W['descr'], W['accepting']
         return S
 
     def canon(T, is_sub):
@@ -438,6 +443,10 @@ def embedded(shell, stmts, command, with_descr):
                     for i in ids:
                         comp.add((k, s - B, f(i)))
         start = 0 if is_sub else (None if T['state'] is None else T['state'] - B)
+        if is_sub and shell == 'bash':
+            if T['accepting'] is None:
+                raise ReadError('no accepting_states in a within-word wrapper')
+            return (start, frozenset(rel), frozenset(comp), frozenset(x - B for x in T['accepting']))
         return (start, frozenset(rel), frozenset(comp))
 
     M = tables_of_function(shell, funcs[main_name], False)
